@@ -45,7 +45,7 @@ def contents(pat):
     return [cell_of(n) for line in pat.data for n in line]
 
 
-def run_history(api, rnd, tid, lines, tracks, attached, edits, prefill, fresh=False, blind_all=False):
+def run_history(api, rnd, tid, lines, tracks, attached, edits, prefill, fresh=False, blind_all=False, twin=False):
     """edits: list of dicts {setter, notes: [(k, cell)] in call/yield order, fail_at: index into notes or None}
     fresh: the pattern is not looked at (no .data / .raw_data access, no prefill) before the first edit has ended and the
     first edit's callable is blind: the contents before are those of a newly constructed pattern - all cells empty."""
@@ -58,8 +58,18 @@ def run_history(api, rnd, tid, lines, tracks, attached, edits, prefill, fresh=Fa
     for k, c in enumerate(prefill):
         n = pat.data[k // tracks][k % tracks]
         n.note, n.vel, n.module, n.ctl, n.val = c
+    src = None
+    if twin and not fresh:       # the edits are made on a shallow copy (copy.copy) of the pattern; the original stands by
+        import copy as _copy
+        src, pat = pat, _copy.copy(pat)
+        src_before = contents(src)
     tr = {"id": tid, "cells": contents(pat) if not fresh else [[0, 0, 0, 0, 0] for _ in range(lines * tracks)], "events": []}
     ev = tr["events"]
+
+    def bystander():
+        if src is not None:
+            ev.append({"op": "bystander", "before": src_before, "after": contents(src),
+                       "owned": [getattr(n, "pattern", None) is src for line in src.data for n in line]})
     for ei, ed in enumerate(edits):
         blind = (fresh and ei == 0) or blind_all       # (blind_all: large patterns - the callable does not log what it sees)
 
@@ -72,6 +82,8 @@ def run_history(api, rnd, tid, lines, tracks, attached, edits, prefill, fresh=Fa
         if exc is NonNote and fail_at is not None and fail_at >= len(calls):
             exc = Boom          # (a failure behind the last supplied note can only be an exception)
         reuse = ed.get("reuse", ())          # positions (indices into calls) where the callable hands back an EXISTING note object
+        if src is not None:
+            reuse = ()                       # (a shallow copy shares its note objects with the original until its first edit: not handed back)
         inplace = ed.get("inplace", ())      # positions where the generator edits the note found in the WORKING array and yields it
         direct = ed.get("direct", ())        # positions where the generator puts the note into the working array itself, yielding nothing
 
@@ -136,6 +148,7 @@ def run_history(api, rnd, tid, lines, tracks, attached, edits, prefill, fresh=Fa
             # the callable's failure propagates (Python may re-wrap it, e.g. StopIteration inside a generator -> RuntimeError)
             ev.append({"op": "fail", "outcome": "callable-exception" if fail_at is not None else "unexpected:" + type(e).__name__,
                        "post": contents(pat)})
+            bystander()
             continue
         if fail_at is not None:       # the callable raised but the edit "completed": the failure was swallowed
             ev.append({"op": "fail", "outcome": "swallowed:" + exc.__name__, "post": contents(pat)})
@@ -156,6 +169,7 @@ def run_history(api, rnd, tid, lines, tracks, attached, edits, prefill, fresh=Fa
                     good = False
                 acc.append(bool(good))
         ev.append({"op": "commit", "outcome": "ok", "returns_self": r is pat, "post": contents(pat), "owned": owned, "accessors": acc})
+        bystander()
     return tr
 
 
@@ -218,7 +232,8 @@ def run(ctx):
             follow = [edit("gen", nc, None, partial=True)]
             if rnd.random() < 0.5:
                 follow.append(edit("fn", nc, None, False))
-            traces.append(run_history(api, rnd, "s%d" % len(traces), ln, tk, attached, [e1] + follow, [rcell() for _ in range(nc)]))
+            traces.append(run_history(api, rnd, "s%d" % len(traces), ln, tk, attached, [e1] + follow, [rcell() for _ in range(nc)],
+                                      twin=len(traces) % 4 == 1))
     # a bulk edit as the very first thing that happens to a newly constructed pattern (nothing has looked at it yet)
     for (ln, tk), setter, attached in itertools.product(shapes[1:], ("fn", "gen"), (False, True)):
         nc = ln * tk
@@ -248,7 +263,7 @@ def run(ctx):
             if fa is not None:
                 ed["fail_at"] = min(fa, len(ed["notes"]) - (1 if setter == "fn" else 0))
             eds.append(ed)
-        traces.append(run_history(api, rnd, "r%d" % len(traces), ln, tk, rnd.random() < 0.5, eds, [rcell() for _ in range(nc)]))
+        traces.append(run_history(api, rnd, "r%d" % len(traces), ln, tk, rnd.random() < 0.5, eds, [rcell() for _ in range(nc)], twin=len(traces) % 5 == 2))
     for tr in traces:
         pre = tr["cells"]
         for e in tr["events"]:
